@@ -115,7 +115,7 @@ def check_filter(desc, acc):
 
 def filter_corpus(tier):
     U = (2, 5, 7)
-    node_assign = [(0, 1, 2), (1, 1, 3), (3, 2, 0), (2, 0, 1)] if tier == "quick" else list(itertools.product(range(4), repeat=3))[::3]
+    node_assign = [(0, 1, 2), (1, 1, 3), (3, 2, 0), (2, 0, 1)] if tier == "quick" else list(itertools.product(range(4), repeat=3))[::7]
 
     def with_md(gen, edge_md_all):
         for d in gen:
@@ -221,8 +221,8 @@ def svh_corpus(tier):
             for ws in itertools.product((1, 2, 3), repeat=r):
                 for mo in (2, 3, 4):
                     i += 1
-                    mp = (i % 400 == 0)  # process pools are slow: a deterministic 1/400 subset
-                    if tier == "thorough" and r == 4 and (i % 3):
+                    mp = (i % (400 if tier == "quick" else 20000) == 0)  # process pools are slow (run one by one in the parent): a deterministic subset
+                    if tier == "thorough" and r == 4 and (i % 9):
                         continue
                     yield ("svh", (U, es, ws, mo, mp))
     # heavier weights: validated sets become non-trivial
